@@ -168,6 +168,13 @@ func init() {
 	rt["Fix"] = func(fr *frame, a []value) value { return fr.i.concrete(fr, a[0], "fix") }
 	rt["FixU64"] = rt["Fix"]
 	rt["FixBool"] = rt["Fix"]
+	rt["StackDepth"] = func(fr *frame, a []value) value {
+		n := 0
+		for f := fr; f != nil; f = f.caller {
+			n++
+		}
+		return n
+	}
 	rt["Yield"] = func(fr *frame, a []value) value { fr.i.sch.yield("rt"); return nil }
 	rt["Gosched"] = func(fr *frame, a []value) value { fr.i.sch.gosched(); return nil }
 	rt["WaitQuiescent"] = func(fr *frame, a []value) value { return fr.i.sch.waitQuiescent() }
